@@ -424,7 +424,20 @@ class ProgGen:
             self.features.add("for-range-dynamic")
         self.intvars.add(i)
         self.intvar_bound[i] = bound
-        out = [pad + f"for {i} in range({rng}):"]
+        out = []
+        if self.chance(25):
+            # bounds / step held in local variables that are not used after the loop header
+            self.features.add("for-range-bound-in-variable")
+            nb, ns = self.fresh("n"), self.fresh("s")
+            self.ro.update([nb, ns])
+            out.append(pad + f"{nb} = min(max({self.choice(['d1.Setting', 'd0.On + 2', '3'])}, 0), 4)")
+            if self.chance(40):
+                out.append(pad + f"{ns} = {self.choice(['1', '2', 'd2.On * 0 + 1'])}")
+                rng, bound = f"0, {nb}, {ns}", 5
+            else:
+                rng, bound = nb, 5
+            self.intvar_bound[i] = bound
+        out.append(pad + f"for {i} in range({rng}):")
         out += self.block(vars_ + [i], ind + 1, depth + 1, in_func, in_loop=True)
         return out
 
